@@ -79,6 +79,7 @@ class Builder:
                     inline_filter=self.inline_filter, erase_layout=self.erase_layout, erase_validation=self.erase_validation,
                     keep_raises=self.keep_raises, track_locals=self.track_locals, track_effects=self.track_effects,
                     summarise_loops=self.summarise_loops, erase_persistence=self.erase_persistence, inline_new=self.inline_new)
+        b.module_names = getattr(self, "module_names", set())
         b.stores = dict(self.stores)
         return b
 
@@ -86,7 +87,7 @@ class Builder:
     def t(self, e: ast.AST):
         m = getattr(self, "e_" + type(e).__name__, None)
         if m is None:
-            return app("expr", ast.unparse(e))
+            return app("expr", _canon_region_text(e))
         return m(e)
 
     def e_Constant(self, e):
@@ -555,6 +556,9 @@ class Builder:
                 conv = _match_to_if(st)
                 if conv is not None:
                     return self.run(conv + stmts[i + 1:])
+            if isinstance(st, ast.With) and any(isinstance(n, ast.Return) for n in ast.walk(st)):
+                # leaving the context manager is not part of the summary: a return inside the block ends the function
+                return self.run(list(st.body) + stmts[i + 1:])
             if isinstance(st, ast.If):
                 c = self.t(st.test)
                 rest = stmts[i + 1:]
@@ -689,7 +693,10 @@ class Builder:
                 if isinstance(n, (ast.Name, ast.Attribute)) and isinstance(getattr(n, "ctx", None), ast.Store):
                     d = dotted(n)
                     if d is not None:
-                        v = fresh(d)
+                        # the region is outside the fragment: what it leaves in a name is identified by the name and the region's
+                        # (normalised) text, so that two readings of the same region agree and two different regions do not
+                        import hashlib
+                        v = app("opaque", f"{d}#{hashlib.sha256(_canon_region_text(st).encode()).hexdigest()[:10]}")
                         self.env[d] = v
                         if "." in d:
                             self.stores[d] = v
@@ -773,6 +780,20 @@ class Builder:
             self.assign(tgt.value, app("starred", v))
 
 
+def _canon_region_text(st) -> str:
+    """Text of a region outside the fragment with products and keyword arguments in a fixed order."""
+    import copy
+    t = copy.deepcopy(st)
+    for n in ast.walk(t):
+        if isinstance(n, ast.Call) and len(n.keywords) > 1 and all(k.arg is not None for k in n.keywords):
+            n.keywords.sort(key=lambda k: k.arg)
+    # innermost first, so that the sort keys of outer products are already canonical
+    for n in reversed(list(ast.walk(t))):
+        if isinstance(n, ast.BinOp) and isinstance(n.op, ast.Mult) and ast.unparse(n.left) > ast.unparse(n.right):
+            n.left, n.right = n.right, n.left
+    return ast.unparse(t)
+
+
 def _is_new(callee: Func) -> bool:
     from . import alpha
     return not alpha.is_reference_function(callee.module.rel, callee.cls.name if callee.cls else None, callee.name)
@@ -782,7 +803,7 @@ def _match_to_if(st: ast.Match):
     """`match (a, b): case [True, False]: ...` over a tuple of truth values is an if / elif chain; other matches are left alone."""
     subj = st.subject
     if not isinstance(subj, (ast.Tuple, ast.List)):
-        return None
+        return _match_values_to_if(st)
     tests = []
     for case in st.cases:
         if case.guard is not None:
@@ -815,6 +836,45 @@ def _match_to_if(st: ast.Match):
             pats.append(tuple((sp.value if isinstance(sp, ast.MatchSingleton) else sp.value.value) if not isinstance(sp, ast.MatchAs) else None for sp in pat.patterns))
     if len(subj.elts) <= 6 and all(any(all(pv is None or pv == v for pv, v in zip(pt, asg)) for pt in pats) for asg in itertools.product((True, False), repeat=len(subj.elts))):
         tests[-1] = (None, tests[-1][1])
+    chain = None
+    for test, body in reversed(tests):
+        if test is None:
+            chain = list(body)
+        else:
+            node = ast.If(test=test, body=list(body), orelse=chain if chain is not None else [])
+            ast.copy_location(node, st)
+            ast.fix_missing_locations(node)
+            chain = [node]
+    return chain
+
+
+def _match_values_to_if(st: ast.Match):
+    """`match x: case "a": ... case 1 | 2: ... case _: ...` over literal values is an if / elif chain on equality."""
+    subj = st.subject
+    tests = []
+    for case in st.cases:
+        if case.guard is not None:
+            return None
+        pat = case.pattern
+
+        def lit(p):
+            if isinstance(p, ast.MatchValue) and isinstance(p.value, ast.Constant):
+                return ast.Compare(left=subj, ops=[ast.Eq()], comparators=[p.value])
+            if isinstance(p, ast.MatchSingleton):
+                return ast.Compare(left=subj, ops=[ast.Is()], comparators=[ast.Constant(value=p.value)])
+            return None
+        if isinstance(pat, ast.MatchAs) and pat.pattern is None and pat.name is None:
+            tests.append((None, case.body))
+        elif isinstance(pat, ast.MatchOr):
+            parts = [lit(p) for p in pat.patterns]
+            if any(x is None for x in parts):
+                return None
+            tests.append((ast.BoolOp(op=ast.Or(), values=parts), case.body))
+        else:
+            t = lit(pat)
+            if t is None:
+                return None
+            tests.append((t, case.body))
     chain = None
     for test, body in reversed(tests):
         if test is None:
